@@ -6,6 +6,9 @@ CFG = dict(
     stages=[
         seq("asan", "asan", "c18_lht.c", 40000, 4000000, leak=False),
         seq("rel", "rel", "c18_lht.c", 10000, 1000000, leak=False),
+        # identity keys (integers in the pointer, key 0 = NULL), value destructor only: harness/c18_intkeys.c
+        seq("intkeys_asan", "asan", "c18_intkeys.c", 20000, 2000000, leak=False),
+        seq("intkeys_rel", "rel", "c18_intkeys.c", 10000, 1000000, leak=False),
     ],
     rule=("case = one container chosen by the PRNG (bare aws_linked_hash_table with initial_item_count 0-16, or FIFO / LIFO / "
           "LRU cache with max_items 1-8), key universe of 1-12 equality classes whose key objects are equal by content but "
@@ -38,6 +41,7 @@ CFG = dict(
         "use_lru_element / get_mru_element are only called on LRU caches (cache->impl is a precondition)",
     ],
     min_counts={"any": {
+        "null_key_evicted_on_overflow": 100, "int_keys_lru": 100, "int_keys_lifo": 100, "int_keys_fifo": 100,
         "overwrite_distinct_key_pointer": 100, "overwrite_same_key_pointer": 100, "evict_fifo": 100, "evict_lifo": 100,
         "evict_lru": 100, "overwrite_of_would_be_victim": 100, "capacity1_eviction": 50, "remove_then_refill": 100,
         "lru_find_reorders": 100, "use_lru_element": 100, "get_mru_element": 100, "clear_nonempty": 100,
